@@ -8,7 +8,11 @@ Inductive c20case :=
 | CEscape (obtained : bool)                      (* an escape attempt reported a forbidden value *)
 | CWrite (route : nat) (modified : bool)         (* an attempt to modify a library table took effect *)
 | CTimeout (family : nat) (limit_ms elapsed_ms : N) (stopped : bool)
-| CExit (returns_number : bool) (expected code : Z) (err : bool).
+| CExit (returns_number : bool) (expected code : Z) (err : bool)
+  (* InvokeHooksForStage: the declared hooks (id, principals, exit code of its script), the principal
+     the signer's key belongs to, the outcome (0 ran, 1 no such principal, 2 no hooks for it, 3 other)
+     and the hooks that ran with their exit codes *)
+| CHooks (hooks : list (nat * list nat * Z)) (principal : option nat) (outcome : nat) (ran : list (nat * Z)).
 
 Definition c20_check (c : c20case) : verdict :=
   match c with
@@ -27,6 +31,20 @@ Definition c20_check (c : c20case) : verdict :=
          function, or building the traceback of an error raised after millions of tail calls) *)
       if stopped && (elapsed <=? limit + 8000)%N then VOk
       else if Nat.eqb family 1 then VFinding 4 else VSpec 4
+  | CHooks hooks principal outcome ran =>
+      let assigned := match principal with
+                      | Some p => select_hooks (map (fun h => (fst (fst h), snd (fst h))) hooks) p
+                      | None => []
+                      end in
+      (* only hooks assigned to the signer's principal ever run *)
+      if negb (forallb (fun r => memn (fst r) assigned) ran) then VSpec 6
+      else
+        let expect_outcome := match principal, assigned with None, _ => 1 | Some _, [] => 2 | Some _, _ => 0 end in
+        if negb (Nat.eqb outcome expect_outcome) then VMismatch 6
+        else if Nat.eqb outcome 0
+                && negb (Nat.eqb (List.length ran) (List.length assigned)
+                         && forallb (fun r => existsb (fun h => Nat.eqb (fst (fst h)) (fst r) && Z.eqb (snd h) (snd r)) hooks) ran) then VMismatch 7
+        else VOk
   | CExit isnum expected code err =>
       if err then VOk else if isnum then (if Z.eqb code expected then VOk else VSpec 5) else (if Z.eqb code 1 then VOk else VSpec 5)
   end.
